@@ -885,7 +885,9 @@ def op_c10(case):
 
             r["tree"]["nospecempty_textspan_only"] = nospan(ra) == nospan(rb)
             # CPython cuts the text after a \N{...} escape; in a format spec the pieces stay separate Constant nodes
-            r["tree"]["specmerged_equal"] = flatten(_merge_spec_text(a)) == flatten(_merge_spec_text(b))
+            ma, mb = flatten(_merge_spec_text(a)), flatten(_merge_spec_text(b))
+            r["tree"]["specmerged_equal"] = ma == mb
+            r["tree"]["specmerged_textspan_only"] = nospan(ma) == nospan(mb)      # both consequences of the cut in one literal
         except BaseException:  # noqa: BLE001
             r["tree"]["nospecempty_equal"] = False
     return r
